@@ -25,7 +25,8 @@ def run_lbp_exact(chk, n):
     from mbi import Domain, Factor, CliqueVector, FactorGraph
     import pgmgen
     from common import ltok, qtok, parse_qlist
-    rng = chk.rng
+    import random as _random
+    rng = _random.Random('lbp-exact-%s-%s' % (chk.tier, chk.seed))      # its own stream: the generalized-BP / float streams below stay as they were
     lines, pend = [], []
     for _ in range(n):
         kind = rng.choice(['chain', 'star', 'tree3', 'disconnected', 'loop', 'dense'])
@@ -83,7 +84,7 @@ def main(chk):
     chk.prove()
     run_lbp_exact(chk, 40 if chk.tier == 'quick' else 500)
     rng = chk.rng
-    n = 60 if chk.tier == 'quick' else 800
+    n = 140 if chk.tier == 'quick' else 1200
     lines, pend = [], []
     plan = [('corpus', None)] if any(f.get('corpus') for f in chk.findings) else []
     plan += [(None, None)] * n
